@@ -28,6 +28,40 @@ func init() {
 			}
 			return tuple{sec, nsec, mono}
 		},
+		// Time.Sub on symbolic instants: the difference without the saturation logic of the
+		// real method (which needs a 64-bit remainder by 1e9 that no solver here decides);
+		// exact whenever the instants are less than ~292 years apart, which the time model
+		// guarantees (all symbolic instants lie in 2001..2096).  Concrete calls run the real code.
+		"(time.Time).Sub": func(fr *frame, a []value) value {
+			i := fr.i
+			if !hasSymbolic(a[0], 0) && !hasSymbolic(a[1], 0) {
+				fn := i.prog.ImportedPackage("time").Type("Time").Object()
+				m := i.prog.LookupMethod(fn.Type(), fn.Pkg(), "Sub")
+				return callSSAbody(i, fr.caller, m, a, nil)
+			}
+			tp := i.prog.ImportedPackage("time")
+			tt := tp.Type("Time").Object().Type()
+			pt := types.NewPointer(tt)
+			secM := i.prog.LookupMethod(pt, tp.Pkg, "sec")
+			nsecM := i.prog.LookupMethod(pt, tp.Pkg, "nsec")
+			cellT, cellU := a[0], a[1]
+			ts := call(i, fr, 0, secM, []value{&cellT})
+			us := call(i, fr, 0, secM, []value{&cellU})
+			tn := call(i, fr, 0, nsecM, []value{&cellT})
+			un := call(i, fr, 0, nsecM, []value{&cellU})
+			i64 := types.Typ[types.Int64]
+			dsec := i.binop(tokenSUB, i64, ts, us)
+			dn := i.binop(tokenSUB, types.Typ[types.Int32], tn, un)
+			dn64 := i.conv(i64, types.Typ[types.Int32], dn)
+			wall := i.binop(tokenADD, i64, i.binop(tokenMUL, i64, dsec, int64(1000000000)), dn64)
+			// both monotonic: difference of the monotonic readings
+			hm := uint64(1) << 63
+			u64 := types.Typ[types.Uint64]
+			tw, uw := a[0].(structure)[0], a[1].(structure)[0]
+			both := i.binop(tokenNEQ, u64, i.binop(tokenAND, u64, i.binop(tokenAND, u64, tw, uw), hm), uint64(0))
+			mono := i.binop(tokenSUB, i64, a[0].(structure)[1], a[1].(structure)[1])
+			return i.iteV(i64, both, mono, wall)
+		},
 		"time.runtimeNano": func(fr *frame, a []value) value { return fr.i.nextMono() },
 		"time.Sleep":       extNop,
 		"time.runtimeNow":  func(fr *frame, a []value) value { return fr.i.nextMono() },
